@@ -44,10 +44,25 @@ class AirPlayV1(StreamProtocol):
         self.rtsp = rtsp
         self._keep_alive_task: Optional[asyncio.Future] = None
 
+    async def _verify_device(self) -> None:
+        verifier = pair_verify(self.context.credentials, self.rtsp.connection)
+        try:
+            await verifier.verify_credentials()
+        except (
+            exceptions.AuthenticationError,
+            exceptions.ProtocolError,
+            OSError,
+            asyncio.TimeoutError,
+        ):
+            raise
+        except Exception as ex:
+            # A reply that cannot be decrypted, lacks fields or carries malformed keys
+            # means that the device could not prove its identity
+            raise exceptions.AuthenticationError(str(ex)) from ex
+
     async def setup(self, timing_server_port: int, control_client_port: int) -> None:
         """To setup connection prior to starting to stream."""
-        verifier = pair_verify(self.context.credentials, self.rtsp.connection)
-        await verifier.verify_credentials()
+        await self._verify_device()
 
         await self.rtsp.announce(
             self.context.bytes_per_channel,
@@ -118,8 +133,7 @@ class AirPlayV1(StreamProtocol):
 
     async def play_url(self, timing_server_port: int, url: str, position: float = 0.0):
         """Play media from a URL."""
-        verifier = pair_verify(self.context.credentials, self.rtsp.connection)
-        await verifier.verify_credentials()
+        await self._verify_device()
 
         body = {
             "Content-Location": url,
